@@ -10,7 +10,7 @@ All == ndJsonDeserialize(IOEnv.OBS_FILE)
 P_Prefix(o) == IsPrefix(o.got, o.sent)
 P_NothingAfter(o) == o.atTamper >= 0 => Len(o.got) = o.atTamper
 P_Down(o) == (o.atTamper >= 0 /\ ~o.desync) => o.state \in {"hung up", "lost"}
-P_ReadsFail(o) == o.state = "lost" => o.pendingReads = 0
+P_ReadsFail(o) == o.state = "lost" => (o.pendingReads = 0 /\ (o.consumer => o.consumerDone # "-"))
 \* the consumer is done exactly when it has been given the expected number of bytes, all of them genuine
 \* (trailing empty records carry no bytes, so they need not have arrived)
 P_Consumer(o) == o.consumerDone = "ok" => (IsPrefix(o.got, o.sent) /\ o.consumerBytes = o.expectedBytes /\ o.gotBytes = o.expectedBytes)
